@@ -142,7 +142,11 @@ def shards_grid(tier):
 
 
 def shards_capture(tier):
-    return shards_general(tier) + ([("focus", 8000)] * 3 if tier == "quick" else [("focus", 30000)] * 10)
+    # gridtrap: the capture clauses of the situation grid only (every trap x neighbour x colour: supporter walks /
+    # is pushed / is dragged away, piece walks / is pushed / is pulled onto the trap, alone or beside a friend)
+    trap = [("gridtrap", 100000000, ["0", "2"]), ("gridtrap", 100000000, ["1", "2"])] if tier == "quick" else \
+           [("gridtrap", 100000000, [str(k), "2", str(rot)]) for rot in range(7) for k in range(2)]
+    return shards_general(tier) + ([("focus", 8000)] * 3 if tier == "quick" else [("focus", 30000)] * 10) + trap
 
 
 def shards_nopanic(tier):
